@@ -100,6 +100,42 @@ def cvc5_check(smt2: str, timeout_ms: int) -> str:
     return 'unknown'
 
 
+AXIOM_HOOKS: list = []      # callables(set of uninterpreted function names in the obligation) -> [axioms]
+
+
+def _decl_names(formulas) -> set:
+    names, seen = set(), set()
+    stack = [f for f in formulas if z3.is_expr(f)]
+    while stack:
+        x = stack.pop()
+        if x.get_id() in seen:
+            continue
+        seen.add(x.get_id())
+        if z3.is_quantifier(x):
+            stack.append(x.body())
+        elif z3.is_app(x):
+            if x.decl().kind() == z3.Z3_OP_UNINTERPRETED:
+                names.add(x.decl().name())
+            stack.extend(x.children())
+    return names
+
+
+def relevant_axioms(ob: Obligation) -> list:
+    if not AXIOM_HOOKS:
+        return []
+    names = _decl_names(list(ob.assumptions) + [ob.goal] + list(ob.restricted or []))
+    out = []
+    for _ in range(3):       # axioms may mention further axiomatised functions
+        new = []
+        for h in AXIOM_HOOKS:
+            new.extend(a for a in h(names) if not any(a.eq(b) for b in out))
+        if not new:
+            break
+        out.extend(new)
+        names |= _decl_names(new)
+    return out
+
+
 def discharge(ob: Obligation, use_cvc5: bool = True, check_vacuity: bool = True) -> Result:
     t0 = time.time()
     if ob.goal is None:
@@ -110,6 +146,8 @@ def discharge(ob: Obligation, use_cvc5: bool = True, check_vacuity: bool = True)
     s = z3.Solver()
     s.set('timeout', ob.timeout_ms)
     for a in ob.assumptions:
+        s.add(a)
+    for a in relevant_axioms(ob):
         s.add(a)
     vac = None
     if check_vacuity:
